@@ -320,6 +320,20 @@ class Tracer(SymEval):
             is_none = key == "None"
             if is_some or is_none:
                 v = self.eval(cn["e"], env)
+                from .symx import const_key, key_matches
+                ckv = const_key(v)
+                if ckv is not None:
+                    # a known Some(..) / None: the branch is decided
+                    try:
+                        hit = key_matches(key, ckv)
+                    except Unsupported:
+                        hit = None
+                    if hit is True:
+                        e2 = dict(env)
+                        self.bind(cn["pat"], v, e2)
+                        return self.eval(n["t"], e2)
+                    if hit is False:
+                        return self.eval(n["e"], dict(env))
                 if isinstance(v, tuple) and len(v) == 3 and v[0] == "opt":
                     def ev_arm(body, e2, g):
                         self.guards.append(g)
@@ -477,13 +491,27 @@ class Tracer(SymEval):
         if const_key(s) is not None:
             return super().e_match(n, env)
         arms = []
+        earlier = []
         for a in n["arms"]:
             e2 = dict(env)
             try:
                 self.bind(a["pat"], s, e2)
             except Unsupported:
                 pass
-            self.guards.append((app("matches", s, repr(pat_key(a["pat"]))), True))
+            key_ = pat_key(a["pat"])
+            npush = 1
+            if key_ == "_" and earlier and "guard" not in a and len(earlier) <= 3 and isinstance(s, Poly) and \
+                    not any(isinstance(k_, tuple) and k_ and k_[0] == "?guarded" for k_ in earlier):
+                # a catch-all arm is reached exactly when none of the earlier (unguarded) arms matched
+                for k_ in earlier:
+                    self.guards.append((app("matches", s, repr(k_)), False))
+                npush = len(earlier)
+            else:
+                self.guards.append((app("matches", s, repr(key_)), True))
+            if "guard" not in a:
+                earlier.append(key_)
+            else:
+                earlier.append(("?guarded", repr(key_)))
             try:
                 if "guard" in a:
                     g = self.eval(a["guard"], e2)
@@ -495,7 +523,8 @@ class Tracer(SymEval):
                 else:
                     v = self.eval(a["body"], e2)
             finally:
-                self.guards.pop()
+                for _ in range(npush):
+                    self.guards.pop()
             arms.append((repr(pat_key(a["pat"])), v))
         from .symx import build_match
         return build_match(s, arms, guarded=any("guard" in a for a in n["arms"]))
@@ -578,4 +607,13 @@ class Tracer(SymEval):
         if path and self.rx.fullmatch(path):
             self.events.append(Event(path, args, self.loops, self.guards, n.get("sp") if n else None, n, dict(env) if env else None))
             return app(path, *args)
+        if path == "core::bool::<impl bool>::then" and len(args) == 2 and isinstance(args[1], tuple) and args[1] and args[1][0] == "closure" \
+                and isinstance(args[0], Poly):
+            # c.then(|| body): the body runs under the condition c
+            self.guards.append((args[0], True))
+            try:
+                v = self.apply(args[1], [])
+            finally:
+                self.guards.pop()
+            return ("opt", app("bool_to_option", args[0]), v)
         return super().call_fn(path, inst, args, n, env)
